@@ -455,6 +455,17 @@ class Session:
         elif op == "mutate":
             import numpy as np
 
+            # ... and the per-line coordinates of that image in the user's tree (an antimeridian wrap lon[lon > 180] -= 360, a unit change):
+            # the tree is the user's, later opens must not see it
+            if last["slot"] in self.trees:
+                try:
+                    node = self.trees[last["slot"]][0][f"imagery/{self.groups[last['img']]}"]
+                    for name in list(node.variables)[:60]:
+                        v = node[name].values
+                        if name != "data" and isinstance(v, np.ndarray) and v.dtype.kind in "fiu" and v.flags.writeable and v.size:
+                            v[...] = 0
+                except Exception:
+                    pass
             held = self.arrays.get((last["slot"], last["img"]), [])
             for i, (arr, snap, what) in enumerate(held):
                 a = np.asarray(arr)
@@ -666,9 +677,15 @@ def spec_cells(state, locs, images=("a", "b")):
 def replay(task):
     """task: level, fs, seed, steps=[{"last":..., "cells":...}], locs -> {"findings": [(category, step index, message, history)], "drift": [...], "nsteps"}"""
     locs = task["locs"]
-    s = Session(task["level"], task["fs"], task["seed"], locs=tuple(locs), versions=tuple(task.get("versions", (0, 1))),
-                storage_options=task.get("storage_options", False))
     out = {"task": {k: task[k] for k in ("level", "fs", "seed", "bid", "cfg")}, "findings": [], "drift": [], "nsteps": 0, "ops": {}, "judged_opens": 0}
+    try:
+        s = Session(task["level"], task["fs"], task["seed"], locs=tuple(locs), versions=tuple(task.get("versions", (0, 1))),
+                    storage_options=task.get("storage_options", False))
+    except checklib.Machinery as e:
+        if "reference child failed" not in str(e):
+            raise
+        out["findings"].append(("spurious_error", 0, "an intact product could not be opened in a fresh process: " + str(e)[-300:], []))
+        return out
     hist = []
     try:
         for k, st in enumerate(task["steps"]):
